@@ -19,6 +19,8 @@ func main() {
 		cmdVerify(os.Args[2:])
 	case "check":
 		os.Exit(cmdCheck(os.Args[2:]))
+	case "lemmas":
+		os.Exit(cmdLemmas(os.Args[2:]))
 	case "list":
 		cmdList(os.Args[2:])
 	default:
